@@ -137,6 +137,7 @@ func extraCmd3(name string, args []string) bool {
 		d.SliceN = *sliceN
 		d.AssumeFPRange = *fpRange
 		d.G.Cfg.Unwind, d.L.Cfg.Unwind = *unwind, *unwind
+		d.L.Cfg.CheckCallABI = true
 		if d.RT != nil {
 			d.RT.Cfg.Unwind = *unwind + 8
 		}
